@@ -4,7 +4,7 @@ import os
 
 import core
 from corr.bloom import strategy
-from search.common import drive, keys_pool, noise_touch, shrink_ops
+from search.common import drive, keys_pool, make_twin, noise_touch, shrink_ops
 
 STRATS = ["fnv", "fnv", "md5", "sha256", "custom", "dint:fnvseed", "dint:sumlen", "dbytes:fnvle", "dbytes:chain"]
 
@@ -61,7 +61,7 @@ def check(case):
             added = []
             twin = None
             if kind != "ondisk":
-                twin = type(obj)(est_elements=case["est"] + 3, false_positive_rate=min(0.9, case["fpr"] * 1.7), hash_function=fn)
+                twin = make_twin(lambda: type(obj)(est_elements=case["est"] + 3, false_positive_rate=case["fpr"] * 0.6, hash_function=fn))
             for step, op in enumerate(case["ops"]):
                 noise_touch(twin, step)
                 if op[0] == "add":
